@@ -178,11 +178,15 @@ void BW_MidiSequencer::MidiTrackRow::clear()
 void BW_MidiSequencer::MidiTrackRow::sortEvents(bool *noteStates)
 {
     typedef std::vector<MidiEvent> EvtArr;
+    typedef std::vector<size_t> IdxArr;
     EvtArr sysEx;
     EvtArr metas;
     EvtArr noteOffs;
     EvtArr controllers;
     EvtArr anyOther;
+    //! Positions of the note-offs and of the other events in the row as it stands in the file
+    IdxArr noteOffsIdx;
+    IdxArr anyOtherIdx;
 
     for(size_t i = 0; i < events.size(); i++)
     {
@@ -191,6 +195,7 @@ void BW_MidiSequencer::MidiTrackRow::sortEvents(bool *noteStates)
             if(noteOffs.capacity() == 0)
                 noteOffs.reserve(events.size());
             noteOffs.push_back(events[i]);
+            noteOffsIdx.push_back(i);
         }
         else if(events[i].type == MidiEvent::T_SYSEX ||
                 events[i].type == MidiEvent::T_SYSEX2)
@@ -228,6 +233,7 @@ void BW_MidiSequencer::MidiTrackRow::sortEvents(bool *noteStates)
             if(anyOther.capacity() == 0)
                 anyOther.reserve(events.size());
             anyOther.push_back(events[i]);
+            anyOtherIdx.push_back(i);
         }
     }
 
@@ -236,56 +242,71 @@ void BW_MidiSequencer::MidiTrackRow::sortEvents(bool *noteStates)
      */
     if(noteStates)
     {
-        std::set<size_t> markAsOn;
+        // Is this the first note-off of its note in this row?
+        std::vector<char> firstOff(noteOffs.size(), 1);
+        for(size_t j = 0; j < noteOffs.size(); j++)
+        {
+            for(size_t k = 0; k < j; k++)
+            {
+                if((noteOffs[k].channel == noteOffs[j].channel) && (noteOffs[k].data[0] == noteOffs[j].data[0]))
+                {
+                    firstOff[j] = 0;
+                    break;
+                }
+            }
+        }
+
         for(size_t i = 0; i < anyOther.size(); i++)
         {
             const MidiEvent e = anyOther[i];
             if(e.type == MidiEvent::T_NOTEON)
             {
                 const size_t note_i = static_cast<size_t>(e.channel * 255) + (e.data[0] & 0x7F);
+                const size_t e_idx = anyOtherIdx[i];
                 //Check, was previously note is on or off
                 bool wasOn = noteStates[note_i];
-                markAsOn.insert(note_i);
-                // Detect zero-length notes are following previously pressed note
-                int noteOffsOnSameNote = 0;
-                for(EvtArr::iterator j = noteOffs.begin(); j != noteOffs.end();)
+                for(size_t j = 0; j < noteOffs.size();)
                 {
-                    // If note was off, and note-off on same row with note-on - move it down!
-                    if(
-                        ((*j).channel == e.channel) &&
-                        ((*j).data[0] == e.data[0])
-                    )
+                    /*
+                     * A note-off that follows the note-on of the same note in the file ends that
+                     * (zero-length) note and has to stay behind it. The exception is the first
+                     * note-off of a note that was already sounding: it shuts the previous note down
+                     * and stays in front. A note-off standing in front of the note-on in the file
+                     * never moves behind it.
+                     */
+                    if((noteOffs[j].channel == e.channel) && (noteOffs[j].data[0] == e.data[0]) &&
+                       (noteOffsIdx[j] > e_idx) && !(wasOn && firstOff[j]))
                     {
-                        // If note is already off OR more than one note-off on same row and same note
-                        if(!wasOn || (noteOffsOnSameNote != 0))
-                        {
-                            anyOther.push_back(*j);
-                            j = noteOffs.erase(j);
-                            markAsOn.erase(note_i);
-                            continue;
-                        }
-                        else
-                        {
-                            // When same row has many note-offs on same row
-                            // that means a zero-length note follows previous note
-                            // it must be shuted down
-                            noteOffsOnSameNote++;
-                        }
+                        // Keep the file order among the events that stay behind
+                        size_t at = i + 1;
+                        while(at < anyOther.size() && anyOtherIdx[at] < noteOffsIdx[j])
+                            at++;
+                        anyOther.insert(anyOther.begin() + static_cast<std::ptrdiff_t>(at), noteOffs[j]);
+                        anyOtherIdx.insert(anyOtherIdx.begin() + static_cast<std::ptrdiff_t>(at), noteOffsIdx[j]);
+                        noteOffs.erase(noteOffs.begin() + static_cast<std::ptrdiff_t>(j));
+                        noteOffsIdx.erase(noteOffsIdx.begin() + static_cast<std::ptrdiff_t>(j));
+                        firstOff.erase(firstOff.begin() + static_cast<std::ptrdiff_t>(j));
+                        continue;
                     }
                     j++;
                 }
             }
         }
 
-        // Mark other notes as released
+        // Note states after this row, in the order the events are going to be sent
         for(EvtArr::iterator j = noteOffs.begin(); j != noteOffs.end(); j++)
         {
             size_t note_i = static_cast<size_t>(j->channel * 255) + (j->data[0] & 0x7F);
             noteStates[note_i] = false;
         }
 
-        for(std::set<size_t>::iterator j = markAsOn.begin(); j != markAsOn.end(); j++)
-            noteStates[*j] = true;
+        for(EvtArr::iterator j = anyOther.begin(); j != anyOther.end(); j++)
+        {
+            if(j->type != MidiEvent::T_NOTEON && j->type != MidiEvent::T_NOTEOFF)
+                continue;
+            size_t note_i = static_cast<size_t>(j->channel * 255) + (j->data[0] & 0x7F);
+            noteStates[note_i] = (j->type == MidiEvent::T_NOTEON);
+        }
     }
     /***********************************************************************************/
 
